@@ -9,10 +9,10 @@ CHECKS = {
              text="Every program in an exhaustively enumerated small grammar and in a seeded family of typed random programs is run on the real EVAL next to an independent reference interpreter; result, error class, ordered trace! effects and final globals must agree. Held on the programs executed, nothing more.",
              note="trusts the harness reference interpreter (refmal) as the reading of the mal guide + README; error message text is not compared", ref="5/C01"),
  "C02": dict(technique="snapshot-invariant monitor after every step of generated operation histories + Go race detector on shared-parent derivations",
-             text="After every step of generated histories of collection operations every earlier binding is re-read and compared with the snapshot taken when it was bound; a concurrent part derives from shared parents under -race.",
+             text="After every step of generated histories of collection operations every earlier binding is re-read and compared with the snapshot taken when it was bound; a concurrent part derives from shared parents under -race; values seen through closures (captured before a re-binding let, collected over the iterations of a tail loop) must stay what was captured.",
              note="canonical comparison by the harness value model; race detector sees only executed interleavings", ref="5/C02"),
  "C03": dict(technique="reference-model monitor for try/catch/finally with identity checks on thrown values and Go errors",
-             text="Generated nests of try/catch/finally with non-self-evaluating thrown objects, Go errors returned or panicked by harness builtins; result/error/trace compared with the reference interpreter, errors.Is and ErrorValue checked from Go.",
+             text="Generated nests of try/catch/finally with non-self-evaluating thrown objects, Go errors returned or panicked by harness builtins; result/error/trace compared with the reference interpreter, errors.Is and ErrorValue checked from Go; thrown objects include nil/false/empty values; builtins registered as plain Go function values fail and panic (also with Go runtime errors) inside try bodies.",
              note="trusts refmal's try semantics written from the property statement", ref="5/C03"),
  "C04": dict(technique="crash sentinel (recover + child-process death attribution) over enumerated malformed ASTs and builtin x argument tuples, live and cancelled contexts",
              text="Every enumerated malformed special form, builtin call tuple and Go-built AST is evaluated under recover() in a child process, directly, wrapped in try/catch, inside a future and under an already cancelled context; any escaping panic is a violation; function values of 26 provenances (with-meta, reader metadata, eval-built, held in atoms/maps, builtins) are applied in 51 ways (direct, apply, map, swap!, reduce, defmacro+call, macroexpand, future-call, memoize, partial, comp, threading, update).",
@@ -21,46 +21,46 @@ CHECKS = {
              text="All token sequences up to a length bound, every truncation of windows of the repository's lisp sources, and seeded hostile texts go through READ/READWithPreamble/Read_str/read-string and PRINT under recover() and a watchdog.",
              note="inputs bounded in size and nesting; hang = no return within 10 s and, run again, within 30 s", ref="5/C05"),
  "C06": dict(technique="relational round-trip monitor with an independent structural comparison (exhaustive short strings + seeded values and accepted texts + coverage-guided fuzzing of strings)",
-             text="PRINT then READ (and pr-str/read-string) of exhaustively enumerated short strings over the escaping-relevant alphabet and of seeded nested values must give a canonically equal value; accepted texts must satisfy READ.PRINT.READ = READ.",
+             text="PRINT then READ (and pr-str/read-string) of exhaustively enumerated short strings over the escaping-relevant alphabet and of seeded nested values must give a canonically equal value; accepted texts must satisfy READ.PRINT.READ = READ; long strings printed in plain mode immediately before, identifiers with non-ASCII letters and digits.",
              note="comparison by the harness value model (canon), never the interpreter's =; three listed known findings", ref="5/C06"),
  "C07": dict(technique="tick-history monitor: cancellation issued from inside the k-th tick!, zero later ticks allowed; bounded wall clock with load canary for blocking builtins",
              text="Looping/recursing/macro-expanding/sleeping/deref-ing programs inside try/catch/finally nests are cancelled at logical instants; the evaluating thread must start no further tick and EVAL must return a timeout error; blocking builtins (also while an earlier evaluation with a longer-lived context waits on the same future or atom) must return within a generous wall bound while the canary is quiet; under natural deadlines the innermost handler of nested tries must produce the value (a missed handler is re-examined with 4x and 16x the deadline).",
              note="logical oracle is exact; wall-clock part uses a 5 s bound against a normal of milliseconds and is discarded when the load canary is late", ref="5/C07"),
  "C08": dict(technique="host-stack-depth invariant monitor (runtime.Callers at the base case for n=3,30,300,3000) + 10^6-iteration runs under a reduced stack cap in child processes",
-             text="For generated nests of tail-position constructs the Go stack depth seen by a harness builtin must be identical for every iteration count; long loops must complete under a 4 MiB stack cap.",
+             text="For generated nests of tail-position constructs the Go stack depth seen by a harness builtin must be identical for every iteration count; long loops must complete under a 4 MiB stack cap; loops run under background, deadline and derived contexts; functions may be built by macros, eval or read-string.",
              note="depth measured in frames by runtime.Callers", ref="5/C08"),
  "C09": dict(technique="linearizability checking (porcupine) of client-boundary histories + Go race detector + parked-hook lost-update scenarios + bounded-progress watchdog",
              text="Many short concurrent histories of deref/reset!/swap!/print on shared atoms, recorded at the EVAL boundary with unique written values, are checked against a sequential register model; hooks park a swap! mid-update (also: another writer lands, the parked evaluation is cancelled, the atom must stay usable); all under -race.",
              note="porcupine timeout = inconclusive; race detector sees executed interleavings only", ref="5/C09"),
  "C10": dict(technique="rule-based history checker (R1-R8) over recorded future histories + parked-hook windows + Go race detector",
-             text="Histories of deref/done?/cancelled?/cancel against bodies that complete, throw, sleep or ignore cancellation are recorded with timestamps and checked against eight rules; the narrow publication windows are made certain by parking goroutines at hook sites.",
+             text="Histories of deref/done?/cancelled?/cancel against bodies that complete, throw, sleep or ignore cancellation are recorded with timestamps and checked against eight rules; the narrow publication windows are made certain by parking goroutines at hook sites; futures whose creating evaluation context is ended after completion; chains of up to 1000 nested futures.",
              note="real-time order from one monotonic clock at the client boundary", ref="5/C10"),
  "C11": dict(technique="solo-vs-concurrent relational monitor + Go race detector + atomicity readers on one shared environment",
-             text="Generated programs run simultaneously on one preloaded environment under -race; each result must equal its solo result, readers must see globals unbound or complete, locals must never carry another thread's tag.",
+             text="Generated programs run simultaneously on one preloaded environment under -race; each result must equal its solo result, readers must see globals unbound or complete, locals must never carry another thread's tag; call-local defs must not reach the shared environment; a shared memoized function and 16 simultaneous deep recursions must give their solo results.",
              note="gensym numbering canonicalised", ref="5/C11"),
  "C12": dict(technique="template-substitution model for quasiquote + call/macroexpand relational monitor with trace observation",
-             text="Generated templates are evaluated and compared with a substitution computed by the generator; generated macros are called and compared with the evaluation of their macroexpand result (value and trace); library macros are compared with their documented meaning.",
+             text="Generated templates are evaluated and compared with a substitution computed by the generator; generated macros are called and compared with the evaluation of their macroexpand result (value and trace); library macros are compared with their documented meaning; call sites evaluated repeatedly, stateful expanders, nested quasiquote heads as data, try bodies ending in a macro call.",
              note="substitution model is harness code", ref="5/C12"),
  "C13": dict(technique="reference-model monitor (independent sequence/map/set model) over boundary-value argument tuples and random pipelines",
-             text="Every listed builtin is called on exhaustive boundary tuples and in random pipelines; value/kind must match the model where it prescribes a value, an error must be returned where the statement prescribes one.",
+             text="Every listed builtin is called on exhaustive boundary tuples and in random pipelines; value/kind must match the model where it prescribes a value, an error must be returned where the statement prescribes one (duplicate keys in hash-map included).",
              note="model rules in DESIGN.md Appendix A; Unspecified cells accept any non-panicking outcome", ref="5/C13"),
  "C14": dict(technique="independent structural comparison + reflexivity/symmetry/transitivity monitors over an exhaustive small universe and mutated deep pairs",
-             text="(= a b) through EVAL is compared with the harness's own structural equality for all pairs of an exhaustive universe of small values, triples for transitivity, and random deep pairs built by mutation and by different construction paths.",
+             text="(= a b) through EVAL is compared with the harness's own structural equality for all pairs of an exhaustive universe of small values, triples for transitivity, and random deep pairs built by mutation and by different construction paths (metadata-carrying ones included).",
              note="canon.LispEqual is the oracle", ref="5/C14"),
  "C15": dict(technique="substitution-model monitor: generator-side AST substitution vs READWithPreamble(AddPreamble(src,m)) vs Read_str(src,m)",
-             text="Generated sources with placeholders and decoys and generated value maps are transported through AddPreamble/READWithPreamble and compared with an independent substitution done on the generator's AST.",
+             text="Generated sources with placeholders and decoys and generated value maps are transported through AddPreamble/READWithPreamble and compared with an independent substitution done on the generator's AST; placeholders also in hash-map key position, names reused from earlier cases without a value, the name MODULE.",
              note="names over [A-Za-z0-9_-]; values are data", ref="5/C15"),
  "C16": dict(technique="bracket-stack model monitor using the REPL's own classifier through a verif-tagged export",
              text="Every cut point of generated well-formed expressions is classified by a harness stack machine; READ must report the distinguished EOF error naming the innermost closer exactly when the prefix is completable by closers; surplus/mismatched closers and multiple expressions must be rejected with a non-multiline error; the real REPL loop (repl.Execute) is driven with typed multi-line entries with comments on inner lines and must print exactly one correct result per entry.",
              note="uses repl.VerifMultiLine (hook) so that the REPL's own classification is observed", ref="5/C16"),
  "C17": dict(technique="position monitor against generator-known line numbers of planted faults",
-             text="Programs with exactly one planted fault are generated with known line spans; any positioned error must name the module, lie within the top-level form and cover the fault's first line.",
+             text="Programs with exactly one planted fault are generated with known line spans; any positioned error must name the module of that reading (module names vary, the same text is read under another name first), lie within the top-level form and cover the fault's first line; faults evaluated at macro-expansion time included.",
              note="columns not checked; higher-order builtin re-positioning accepted in both readings", ref="5/C17"),
  "C18": dict(technique="on/off relational monitor with scripted Stepper callbacks",
              text="Programs of the C01/C03/C12 generators are run with and without a scripted stepper (constant, alternating and seeded command sequences); result, error class and trace must agree, and the callback must always receive a scope in which the handed symbol resolves; long-running programs (4000-12000 tail calls, deep recursion, try nests) are included.",
              note="single-threaded; stdout of Next is discarded", ref="5/C18"),
  "C19": dict(technique="multi-route relational monitor (text with/without module, position-less AST, re-read print, REPL form by form, do-wrapped, load-file) over layout variants",
-             text="The same generated program is delivered through seven routes and several layouts; result, error class and trace must agree across all of them.",
+             text="The same generated program is delivered through seven routes and several layouts; result, error class, final error text (positions removed) and trace must agree across all of them.",
              note="program value observed through a final trace! on routes whose return value is defined differently", ref="5/C19"),
  "C20": dict(technique="exhaustive contract table with entry monitors on harness-defined Go functions bound through lib/call",
              text="An enumerated table of signatures x declared bounds x entry points x import-path shapes x argument lists is executed; entry monitors record whether and with what the Go function was entered; results, errors and panics are compared with the contract; function values sharing their code (closures of one literal, method values of one method) registered under one name in several environments must each be the one invoked.",
